@@ -244,6 +244,71 @@ def main():
         rep.violation("c12:pub-constant-initialised-from-private-constant", {"files": dict(probe), "implementation": pa[:300]})
     else:
         rep.notes.append("known finding F37 no longer reproduces on its probe")
+    # interface matrix: one item of every declaration kind in a leaf module c, pub or not; every acyclic import graph over
+    # three modules a, b, c; a and/or b use the item; every file order.  Accepted exactly when every user imports c
+    # directly and the item is pub (the Lean expansion model decides), and then it behaves like the single-file program.
+    KINDS = {
+        "fn": ("fn", "%sfn x() -> i32\n{\n\treturn: 7\n}\n", "x()"),
+        "head": ("head", "%sextern fn abs(x: i32) -> i32;\n", "abs(-7)"),
+        "const": ("const", "%sconst X: i32 = 7;\n", "X"),
+        "struct": ("struct", "%sstruct X\n{\n\tv: i32,\n}\n", None),
+        "word": ("struct", "%sword32 X\n{\n\tv: i32,\n}\n", None),
+    }
+    def user(fname, pubkw, kind):
+        use = KINDS[kind][2]
+        if use is None:
+            return "%sfn %s() -> i32\n{\n\tvar s = X { v: 7 };\n\treturn: s.v\n}\n" % (pubkw, fname)
+        return "%sfn %s() -> i32\n{\n\treturn: %s\n}\n" % (pubkw, fname, use)
+    mcases = []
+    for kind in KINDS:
+        for is_pub in (True, False):
+            for edges in itertools.product((0, 1), repeat=3):   # a->b, a->c, b->c
+                for ua in (0, 1):
+                    for ub in (0, 1):
+                        if not (ua or ub):
+                            continue
+                        a = ('import "b.pn";\n' if edges[0] else "") + ('import "c.pn";\n' if edges[1] else "")
+                        a += user("main", "", kind) if ua else "fn main() -> i32\n{\n\treturn: 7\n}\n"
+                        b = ('import "c.pn";\n' if edges[2] else "") + (user("fb", "pub ", kind) if ub else "pub fn fb() -> i32\n{\n\treturn: 1\n}\n")
+                        c = KINDS[kind][1] % ("pub " if is_pub else "")
+                        imps = [(0, 1)] * edges[0] + [(0, 2)] * edges[1] + [(1, 2)] * edges[2]
+                        refs = [(0, 9)] * ua + [(1, 9)] * ub
+                        mreq = "C12\t(c12 (mods (m (d 1 fn 0)) (m (d 2 fn 1)) (m (d 9 %s %d))) (imports %s) (refs %s))" % (
+                            KINDS[kind][0], 1 if is_pub else 0, " ".join("(%d %d)" % e for e in imps), " ".join("(%d %d)" % r for r in refs))
+                        mcases.append((kind, is_pub, edges, ua, ub, [("a.pn", a), ("b.pn", b), ("c.pn", c)], mreq))
+    mm = run_model([x[6] for x in mcases])
+    mreqs = []
+    for (kind, is_pub, edges, ua, ub, files3, mreq) in mcases:
+        for o in itertools.permutations(range(3)):
+            mode = "check" if kind == "head" else "run"
+            mreqs.append("alpha\t%s\t" % mode + "\t".join(x for j in o for x in (files3[j][0], esc(files3[j][1]))))
+    mh = run_harness(mreqs)
+    pos = 0
+    for (kind, is_pub, edges, ua, ub, files3, mreq), ma3 in zip(mcases, mm):
+        bits = ma3.split(" ") if ma3 and ma3[0] in "01" else None
+        expect_ok = bits is not None and "0" not in bits
+        for o in itertools.permutations(range(3)):
+            ha = mh[pos]
+            rq = mreqs[pos]
+            pos += 1
+            total += 1
+            hh, hd = kv(ha)
+            codes = codes_of(hd) if hh == "err" else []
+            if bits is None:
+                ok = False
+            elif expect_ok:
+                ok = hh == "ok" and (kind == "head" or hd.get("status") == "7")
+            else:
+                ok = hh == "err" and any(cd in (401, 402, 405) for cd in codes)
+            dist["matrix:%s:%s" % (kind, "accepted" if expect_ok else "rejected")] += 1
+            if ok:
+                agreeing += 1
+            else:
+                rep.violation("matrix:%s:%s:%s:%d%d:%s" % (kind, is_pub, "".join(map(str, edges)), ua, ub, "".join(map(str, o))), {
+                    "why": "a %s %s item of module c, imports a->b=%d a->c=%d b->c=%d, used by %s, files in order %s: the expansion model expects %s"
+                           % ("pub" if is_pub else "private", kind, edges[0], edges[1], edges[2], "+".join(n for n, u in (("a", ua), ("b", ub)) if u),
+                              [files3[j][0] for j in o], "acceptance (status 7)" if expect_ok else "rejection (E401/E402/E405)"),
+                    "files": dict(files3), "harness_request": rq, "model_request": mreq, "implementation": ha[:400], "model_bits": bits})
     # history independence: a module's IR must not depend on unrelated modules compiled before it by the same Compiler
     mods = []
     for i in range(120 if thorough else 12):
@@ -287,7 +352,10 @@ def main():
         "rule": "generated programs (C01 class) partitioned at random over 2-4 files with exactly the needed `pub` flags and "
                 "direct imports, run in every file order (<= 6 orders) and compared with the single-file program's output; the "
                 "same partition with one needed `pub` removed / one needed import removed must be rejected with E401/E402/E405 "
-                "exactly when the Lean expansion model says a reference no longer resolves; sequences of unrelated modules "
+                "exactly when the Lean expansion model says a reference no longer resolves; interface matrix: an item of every "
+                "declaration kind (fn, extern head, const, struct, word), pub or private, in a leaf module x every acyclic import "
+                "graph over three modules x users x all 6 file orders: accepted exactly when the model says every user sees it, "
+                "and then exit status as in one file; sequences of unrelated modules "
                 "through one Compiler must give each module the IR it gets alone",
         "traces_validated_against_impl": agreeing, "distribution": dict(dist), "samples": samples,
     })
